@@ -355,6 +355,8 @@ _SIMSTAT = __import__("re").compile(r"The number of states generated: (\d+)")
 
 def run_family(prop, fam, tier, sc, rep):
     """Returns (states, transitions, cases replayed, non-trivial, violations, sample)."""
+    if "@" in fam:   # "family@quick": this family always runs at the named tier's size
+        fam, tier = fam.split("@")
     light = fam.endswith(":light")
     fam = fam.split(":")[0]
     f = dict(FAMILIES[fam])
@@ -488,7 +490,8 @@ def check(prop, tier, fams, level_rule, assumptions, extra=None):
         "samples": [sample or {"note": "no non-trivial case"}],
         "exhaustive": True,
         "exhaustive_note": "the bfs runs enumerate their family completely; the simulate runs are seeded random samples of larger graphs",
-        "families": {fam: FAMILIES[fam.split(":")[0]]["runs_light" if fam.endswith(":light") else "runs"][tier] for fam in fams},
+        "families": {fam: FAMILIES[fam.split("@")[0].split(":")[0]]["runs_light" if ":light" in fam else "runs"][
+            fam.split("@")[1] if "@" in fam else tier] for fam in fams},
         "invariants_checked_by_tlc": INVARIANTS,
         "violating_cases": len(allviol),
         "known_finding_hits": rep.known_hits,
